@@ -19,6 +19,7 @@ struct SolReadConfig {
   std::vector<ConsumerStep> script;         // step i applies to the i-th offered vector; beyond the list: "all"
   int options_rv = 0;                       // return value of OnAMPLOptions
   bool c_party = false;                     // the handler is a C callback table behind the library's NLW2_SOLHandler_C_Impl wrapper
+  bool easy_party = false;                  // the handler is the library's own SOLHandler_Easy: NLSolver::ReadSolution() for an NLModel of the declared size
 };
 
 struct VecRec {
